@@ -6,6 +6,7 @@ import (
 	"reflect"
 	"strings"
 	"testing"
+	"time"
 	"unsafe"
 
 	hessian "github.com/vogo/gohessian"
@@ -43,6 +44,27 @@ type badChanList struct {
 	Z int32
 }
 
+// exported fields whose names start with a non-ASCII upper-case letter
+type badNonASCIIField struct {
+	A     int32
+	Évent chan int
+	Z     string
+}
+type badNonASCIIFunc struct {
+	Ωmega func()
+	Ärger complex128
+}
+
+// a struct that embeds a timestamp and has further fields is an object, not a date
+type badStamped struct {
+	time.Time
+	C chan int
+}
+type badStampedDeep struct {
+	N int32
+	S badStamped
+}
+
 type namedHandle uintptr
 type namedSig chan int
 type namedCb func()
@@ -60,6 +82,7 @@ var unsupportedKinds = []string{"named uintptr", "named chan", "named func", "na
 	"struct{chan}", "*struct{chan}", "struct{func}", "struct{[]complex128}", "struct{map[string]func}", "struct{*struct{chan}}", "[]chan", "struct{[]chan}", "map[string]chan", "[]interface{}{chan}",
 	// a Go int beyond the 32 bits of the wire type chosen for its kind: not representable as that type. The call
 	// fails, or (should the library choose a wider form) carries the number - see carriedOrFails
+	"struct{Évent chan}", "struct{Ωmega func; Ärger complex128}", "struct{time.Time; chan}", "*struct{struct{time.Time; chan}}",
 	"int beyond 32 bits", "negative int beyond 32 bits", "[]int{.., beyond 32 bits, ..}", "map[string]int{beyond 32 bits}", "struct{int beyond 32 bits}"}
 
 const c13Big = int64(1)<<40 + 12345
@@ -139,6 +162,14 @@ func unsupportedValue(kind string) interface{} {
 		return map[string]chan int{"c": make(chan int)}
 	case "[]interface{}{chan}":
 		return []interface{}{int32(1), make(chan int), int32(3)}
+	case "struct{Évent chan}":
+		return &badNonASCIIField{A: 1, Évent: make(chan int), Z: "z"}
+	case "struct{Ωmega func; Ärger complex128}":
+		return badNonASCIIFunc{Ωmega: func() {}, Ärger: complex(1, 2)}
+	case "struct{time.Time; chan}":
+		return &badStamped{Time: time.Unix(1500000000, 0), C: make(chan int)}
+	case "*struct{struct{time.Time; chan}}":
+		return &badStampedDeep{N: 1, S: badStamped{Time: time.Unix(1500000001, 0), C: make(chan int)}}
 	case "int beyond 32 bits":
 		return int(c13Big)
 	case "negative int beyond 32 bits":
